@@ -245,6 +245,38 @@ def case(ctx, kind, a=None, b=None, nd=1, n=2, sk=None):
         ctx.expect_raises('discr/wrong-shape-raises', (ValueError, TypeError), lambda: d.element([1, 2]))
         c = odl.cn(2)
         ctx.eq('real-into-complex', c.element(odl.rn(2).element([1.0, -2.0])), np.array([1.0 + 0j, -2.0 + 0j]))
+        # input that does not belong to the space because of its dtype: arrays, tensors and discretized elements of
+        # another dtype must come out converted (concrete facts; every kind of target space)
+        from symnp import proxy
+        was, proxy.STATE.armed = proxy.STATE.armed, False
+        try:
+            vals = np.array([1.0, -2.5, 3.0])
+            targets = [('rn', odl.rn(3)), ('rn-f32', odl.rn(3, dtype='float32')), ('cn', odl.cn(3)),
+                       ('discr', odl.uniform_discr(0, 1, 3)), ('discr-f32', odl.uniform_discr(0, 1, 3, dtype='float32')),
+                       ('discr-complex', odl.uniform_discr(0, 1, 3, dtype='complex128')),
+                       ('weighted', odl.rn(3, weighting=2.0))]
+            for tn, tsp in targets:
+                for sn, src in (('ndarray-f32', vals.astype('float32')), ('ndarray-int', np.array([1, -2, 3])),
+                                ('tensor-f32', odl.rn(3, dtype='float32').element(vals)),
+                                ('tensor-f64', odl.rn(3).element(vals)),
+                                ('tensor-int', odl.tensor_space(3, dtype='int64').element([1, -2, 3])),
+                                ('discr-f32', odl.uniform_discr(0, 1, 3, dtype='float32').element(vals)),
+                                ('discr-f64', odl.uniform_discr(0, 1, 3).element(vals))):
+                    try:
+                        e = tsp.element(src)
+                    except (TypeError, ValueError) as exc:
+                        ctx.fact('convert/%s<-%s/raises-or-converts' % (tn, sn), True)
+                        continue
+                    want = np.asarray(src).astype(tsp.dtype)
+                    ok = (e in tsp and e.dtype == tsp.dtype and np.asarray(e).dtype == tsp.dtype
+                          and np.array_equal(np.asarray(e), want) and e.space == tsp)
+                    if hasattr(tsp, 'tspace'):
+                        ok = ok and e.tensor in tsp.tspace and e.tensor.dtype == tsp.dtype
+                    ok = ok and e[1].dtype == tsp.dtype if hasattr(e[1], 'dtype') else ok
+                    ctx.fact('convert/%s<-%s' % (tn, sn), bool(ok),
+                             'element dtype %s, array dtype %s, space dtype %s' % (e.dtype, np.asarray(e).dtype, tsp.dtype))
+        finally:
+            proxy.STATE.armed = was
         return
     if kind == 'pcreation':
         r2, r3 = odl.rn(2), odl.rn(3)
@@ -344,6 +376,27 @@ def case(ctx, kind, a=None, b=None, nd=1, n=2, sk=None):
                 sub = t3.byaxis[idx]
                 ctx.fact('byaxis/%s/%s' % (dt, idx), sub == odl.tensor_space(shp, dtype=dt, weighting=2.0, exponent=1.5),
                          'got %r' % (sub,))
+        # astype / real and complex counterparts of product spaces whose components have DIFFERENT dtypes
+        mixed = [('f64xf32', odl.ProductSpace(odl.rn(2), odl.rn(3, dtype='float32'))),
+                 ('f32xf64', odl.ProductSpace(odl.rn(2, dtype='float32'), odl.rn(3))),
+                 ('c128xc64', odl.ProductSpace(odl.cn(2), odl.cn(2, dtype='complex64'))),
+                 ('nested', odl.ProductSpace(odl.ProductSpace(odl.rn(2), odl.rn(1, dtype='float32')), odl.rn(2))),
+                 ('discr', odl.ProductSpace(odl.uniform_discr(0, 1, 2), odl.uniform_discr(0, 1, 2, dtype='float32'))),
+                 ('homogeneous', odl.ProductSpace(odl.rn(2), odl.rn(3)))]
+
+        def leaves(sp_):
+            return [l for q in sp_.spaces for l in leaves(q)] if hasattr(sp_, 'spaces') else [sp_]
+        for nm, psp in mixed:
+            for dt in ('float32', 'float64', 'complex64', 'complex128'):
+                try:
+                    q = psp.astype(dt)
+                except (TypeError, ValueError):
+                    ctx.fact('pspace-astype/%s/%s/refused' % (nm, dt), True)
+                    continue
+                ok = all(l.dtype == np.dtype(dt) for l in leaves(q)) and \
+                    [l.shape for l in leaves(q)] == [l.shape for l in leaves(psp)]
+                ctx.fact('pspace-astype/%s/%s/every-component-has-the-dtype' % (nm, dt), ok,
+                         'component dtypes %s' % [str(l.dtype) for l in leaves(q)])
         ps = odl.ProductSpace(odl.rn(2), odl.rn(3), odl.rn(1))
         ctx.fact('pspace-getitem', ps[1] == odl.rn(3) and ps[[2, 0]] == odl.ProductSpace(odl.rn(1), odl.rn(2)) and
                  ps[1:] == odl.ProductSpace(odl.rn(3), odl.rn(1)))
